@@ -636,9 +636,20 @@ class ProjectGen:
                 self.features.append('src-shared-var')
                 pos = [shared_var] + [L(s) for s in srcs[:1]]
             elif shape == 7:
-                self.features.append('src-kwarg')
-                vdest.append(f'{sv} = [' + ', '.join(L(s) for s in srcs) + ']')
-                kw.append(('sources', sv))
+                # the `sources:` keyword: a variable, a literal array, a files() call, or next to positional sources
+                form = r.randrange(4)
+                self.features.append(['src-kwarg', 'src-kwarg-literal-array', 'src-kwarg-files', 'src-kwarg-and-positional'][form])
+                if form == 0:
+                    vdest.append(f'{sv} = [' + ', '.join(L(s) for s in srcs) + ']')
+                    kw.append(('sources', sv))
+                elif form == 1:
+                    kw.append(('sources', '[' + ', '.join(L(s) for s in srcs) + ']'))
+                elif form == 2:
+                    kw.append(('sources', 'files(' + ', '.join(L(s) for s in srcs) + ')'))
+                else:
+                    pos = [L(srcs[0])]
+                    more_src = srcs[1:] or [self.srcname(pool)]
+                    kw.append(('sources', '[' + ', '.join(L(s) for s in more_src) + ']'))
             elif shape == 8:
                 self.features.append('src-nested-array')
                 pos = ['[' + L(srcs[0]) + ', [' + ', '.join(L(s) for s in srcs[1:]) + ']]']
@@ -960,6 +971,9 @@ def gen_command(rng: random.Random, m: M.Model, pool: T.Sequence[str]) -> T.Opti
             else:
                 base = rng.choice(['new', 'added', 'aa', 'zz', 'mid', 'x11', "q'uote", 'ünew', 'dir/deep'])
                 sub = rec.subdir + '/' if rec.subdir and rng.random() < 0.85 else ''
+                if rec.subdir and rng.random() < 0.25:
+                    # a sibling directory whose NAME starts with the name of the target's directory
+                    sub = rec.subdir + rng.choice(['-common/', 's/', '_gen/', '2/inner/'])
                 files.append(f'{sub}{base}{rng.randint(0, 99)}{ext}')
         return {'type': 'target', 'target': ident, 'operation': 'src_add' if kind == 'src-add' else 'extra_files_add',
                 'sources': files}
@@ -1049,6 +1063,8 @@ def gen_sequence(rng: random.Random, m: M.Model, pool: T.Sequence[str], maxlen: 
         rec = rng.choice(tg)
         ident = _target_id(rng, rec)
         sub = rec.subdir + '/' if rec.subdir else ''
+        if rec.subdir and rng.random() < 0.3:
+            sub = rec.subdir + rng.choice(['-common/', 's/'])
         f = f'{sub}rt_new{rng.randint(0, 99)}.c'
         return [{'type': 'target', 'target': ident, 'operation': 'src_add', 'sources': [f], 'law': 'add-then-rm'},
                 {'type': 'target', 'target': ident, 'operation': 'src_rm', 'sources': [f], 'law': 'add-then-rm'}]
